@@ -24,6 +24,9 @@ def tasks(tier, seed):
     for part in partitions(range(2)):
         t.append(("contracts.prox", "task", ("group_hier", (2, 1, 1, part), seed), to, f"group_hier[d=2,{part}]"))
     t.append(("contracts.prox", "task", ("hier", (1, 2, "generic", 1), seed), to, "hier[k=1,h=2] (feasibility: hierarchy)"))
+    # boundary values of the hierarchy step: M = 0 forces the first layer to zero (|W1| <= 0 * ||W_skip||), alpha = 0 keeps the hierarchy
+    t.append(("contracts.prox", "task", ("hier", (1, 2, "M0", 1), seed), to, "hier[k=1,h=2,M0] (feasibility: hierarchy)"))
+    t.append(("contracts.prox", "task", ("hier", (2, 1, "alpha0", 1), seed), to, "hier[k=2,h=1,alpha0] (feasibility: hierarchy)"))
     return t
 
 
